@@ -267,6 +267,14 @@ func (tk *TKAI) anchorsOK() []string {
 // tokenSources resolves a *Token / token.Token / &Token-valued expression to the SSA values that
 // stand for "a token": cur=true for the lexer's current token.
 func (tk *TKAI) tokenSources(v ssa.Value) (cur bool, srcs []ssa.Value) {
+	return tk.tokenSourcesSeen(v, map[ssa.Value]bool{})
+}
+
+func (tk *TKAI) tokenSourcesSeen(v ssa.Value, seen map[ssa.Value]bool) (cur bool, srcs []ssa.Value) {
+	if seen[v] {
+		return false, nil // a phi of a loop reached again
+	}
+	seen[v] = true
 	w := tk.w
 	switch x := v.(type) {
 	case *ssa.FieldAddr:
@@ -283,12 +291,12 @@ func (tk *TKAI) tokenSources(v ssa.Value) (cur bool, srcs []ssa.Value) {
 			if _, ok := w.curTokenAddr(x.X); ok {
 				return false, []ssa.Value{x}
 			}
-			return tk.tokenSources(x.X)
+			return tk.tokenSourcesSeen(x.X, seen)
 		}
 	case *ssa.Phi:
 		var out []ssa.Value
 		for _, e := range x.Edges {
-			_, s := tk.tokenSources(e)
+			_, s := tk.tokenSourcesSeen(e, seen)
 			out = append(out, s...)
 		}
 		return false, out
@@ -1296,7 +1304,18 @@ func (tk *TKAI) compute(ci *ctxInfo) *TSummary {
 			for i := 0; i < nres && i < len(rs.ret.Results); i++ {
 				v := rs.ret.Results[i]
 				if !st.firstVals[v] {
-					s.retFirstSnap[i] = false
+					// a token returned by value out of a local cell (`id := p.expect(<ident>); …(&id)…; return id`): the
+					// copies stored in the cell are what counts
+					_, srcs := tk.tokenSources(v)
+					okSrc := len(srcs) > 0
+					for _, sv := range srcs {
+						if !st.firstVals[sv] {
+							okSrc = false
+						}
+					}
+					if !okSrc {
+						s.retFirstSnap[i] = false
+					}
 				}
 				if nres == 1 && (isNilConst(v) || st.nilv[v]) {
 					s.nilWhenConsumed = true
